@@ -23,6 +23,7 @@ ASSUMPTIONS = ["DoGlobalIteration(0) is not issued with shipped listeners attach
                "matplotlib runs with the Agg backend; figures are closed after each run"]
 CHUNK = 2
 CB = ["BeforeMethodStart", "OnEndIteration", "OnMethodStop", "OnRefrash"]
+ZERO_BATCHING = [["iter", 2], ["iter", 0], ["iter", 3], ["iter", 0], ["solve"]]      # empty batches: one notification each, with no new trials
 BATCHINGS = [[["solve"]],
              [["iter", 3], ["solve"]],
              [["iter", 1], ["iter", 1], ["iter", 1], ["iter", 1], ["solve"]],
@@ -313,8 +314,15 @@ def run_case(c):
         scn["iters"] = 150
         scn["r"] = 2.5
     scn["pattern"] = BATCHINGS[c["b"]]
+    if c["kind"] in ("subset", "multi") and (c["idx"] % 5 == 2):
+        scn["pattern"] = ZERO_BATCHING
+        zero_batches = True
+    else:
+        zero_batches = False
     viol = []
     obs = {"runs": 1}
+    if zero_batches:
+        obs["runs_with_empty_batches"] = 1
     if scaled:
         obs["console_runs_with_extreme_values_" + scaled] = 1
     base = record.run_solver(scn, listener=False)
@@ -534,7 +542,7 @@ def run_case(c):
 def finalize(obs, tier, stats):
     for k in ("before_checked", "iter_callbacks_checked", "stop_callbacks_checked", "console_reports_checked", "painter_runs", "painter_probe_calls",
               "figures_written", "refine_runs", "multi_listener_runs", "hostile_grid_boxes", "runs_with_coincident_projected_trials",
-              "listener_class_shape_0", "listener_class_shape_1", "listener_class_shape_2", "listener_class_shape_3", "console_subclass_runs", "attached_directly", "attached_through_proxy", "ambient_solvers_compared", "ambient_with_user_listeners", "console_local_counts_checked", "reused_listener_runs", "console_runs_with_extreme_values_big", "console_runs_with_extreme_values_small"):
+              "listener_class_shape_0", "listener_class_shape_1", "listener_class_shape_2", "listener_class_shape_3", "console_subclass_runs", "attached_directly", "attached_through_proxy", "ambient_solvers_compared", "ambient_with_user_listeners", "console_local_counts_checked", "reused_listener_runs", "console_runs_with_extreme_values_big", "console_runs_with_extreme_values_small", "runs_with_empty_batches"):
         if not obs.get(k):
             return "%s never observed" % k, {}
     if len(obs.get("painter_kinds", [])) < 19:
